@@ -132,14 +132,17 @@ func flatMemRepr(raw json.RawMessage) string {
 
 // absState: a chain state in the vocabulary of the specification.
 type absState struct {
-	H, Bid, Time, App, Params, Lhvc, Lhpc int
-	Last, Vals, Next                      string // setRepr form
+	H, Bid, Time, App, Params, Lhvc, Lhpc, IH int
+	Last, Vals, Next                          string // setRepr form
 }
 
 func parseFlatState(parts []json.RawMessage) (absState, error) {
 	var a absState
-	if len(parts) != 10 {
+	if len(parts) != 11 {
 		return a, fmt.Errorf("flat state with %d fields", len(parts))
+	}
+	if err := json.Unmarshal(parts[10], &a.IH); err != nil {
+		return a, err
 	}
 	ints := []*int{&a.H, &a.Bid, &a.Time, &a.App, &a.Params, &a.Lhvc, &a.Lhpc}
 	for i, p := range ints {
@@ -207,7 +210,7 @@ func paramsToken(p kproto.ConsensusParams) int {
 
 func (w *world) abstract(st *cstate.LatestBlockState) absState {
 	return absState{H: int(st.LastBlockHeight), Bid: w.bidToken(st.LastBlockID), Time: w.timeToken(st), App: w.appToken(st),
-		Params: paramsToken(st.ConsensusParams), Lhvc: int(st.LastHeightValidatorsChanged), Lhpc: int(st.LastHeightConsensusParamsChanged),
+		IH: int(st.InitialHeight), Params: paramsToken(st.ConsensusParams), Lhvc: int(st.LastHeightValidatorsChanged), Lhpc: int(st.LastHeightConsensusParamsChanged),
 		Last: setRepr(st.LastValidators), Vals: setRepr(st.Validators), Next: setRepr(st.NextValidators)}
 }
 
@@ -263,6 +266,7 @@ func diffStates(got, want absState) (prop []fdiff, lock []fdiff) {
 	ci("LastBlockTime", got.Time, want.Time, true)
 	ci("AppHash", got.App, want.App, true)
 	ci("ConsensusParams", got.Params, want.Params, true)
+	ci("InitialHeight", got.IH, want.IH, true)
 	// bookkeeping the statement does not list: compared to keep specification and code in lock-step
 	ci("LastHeightValidatorsChanged", got.Lhvc, want.Lhvc, false)
 	ci("LastHeightConsensusParamsChanged", got.Lhpc, want.Lhpc, false)
@@ -817,7 +821,7 @@ func parseInts(raw json.RawMessage) []int {
 
 // bit of a field in the difference masks of the specification (MC_CStateStore!DiffMask)
 var maskBit = map[string]int{"LastValidators": 1, "Validators": 2, "NextValidators": 4, "LastHeightValidatorsChanged": 8,
-	"LastBlockID": 16, "AppHash": 32, "LastBlockTime": 64, "ConsensusParams": 128, "LastHeightConsensusParamsChanged": 256}
+	"LastBlockID": 16, "AppHash": 32, "LastBlockTime": 64, "ConsensusParams": 128, "LastHeightConsensusParamsChanged": 256, "InitialHeight": 512}
 
 // loadRewound: Load() after the head pointer has been moved back to block h — what a restart finds after the
 // chain's head repair (NewBlockChain rewinds the head to the last block whose state is on disk).
